@@ -32,6 +32,8 @@ std::condition_variable g_cv[MAXT];
 std::condition_variable g_cv_main;
 std::condition_variable g_cv_exit;
 int g_exit_turn = -1;           // threads leave one at a time, after the case is over (TLS destructors must not race)
+int g_pro_turn = -1;            // prologues run one at a time, before the first scheduling decision
+int g_pro_done = 0;
 int g_cur = -1;                 // thread holding the baton (-1: main)
 bool g_active = false;
 int g_n = 0;
@@ -288,10 +290,33 @@ void ev_note( std::string const& s )
     g_trace.push_back( r );
 }
 
+void pseudo_begin()
+{
+    int me = tls_tid;
+    if ( me < 0 || !g_active || tls_quiet )
+        return;
+    sched_point( me );
+}
+
+void pseudo_end( char const* kind, std::string const& loc, std::string const& a, std::string const& b )
+{
+    if ( tls_quiet || !g_cfg.trace )
+        return;
+    Rec r{};
+    r.tid = uint16_t( tls_tid < 0 ? 0xffff : tls_tid ); r.kind = K_PSEUDO; r.note = int( g_notes.size());
+    g_notes.push_back( std::string( kind ) + ' ' + loc + ' ' + a + ( b.empty() ? "" : " " + b ));
+    ++g_stats.rmw;
+    g_idle_rounds = 0;          // counts as a write: whoever was spinning may try again
+    for ( int t = 0; t < g_n; ++t )
+        g_yielded[t] = false;
+    g_trace.push_back( r );
+}
+
 // ---------------------------------------------------------------- run
 
 RunStatus run_case( int nthreads, std::function<void( int )> const& body, SchedCfg const& cfg,
-                    std::function<void( RunStatus )> const& on_abort )
+                    std::function<void( RunStatus )> const& on_abort,
+                    std::function<void( int )> const& prologue, std::function<void( int )> const& epilogue )
 {
     if ( nthreads > MAXT ) nthreads = MAXT;
     g_cfg = cfg;
@@ -313,12 +338,25 @@ RunStatus run_case( int nthreads, std::function<void( int )> const& body, SchedC
             g_change_points.push_back( g_rng.below( cfg.est_len ? cfg.est_len : 1 ));
     }
     g_cur = -1;
+    g_pro_turn = -1; g_pro_done = 0;
     g_active = true;
 
     std::vector<std::thread> th;
     for ( int t = 0; t < nthreads; ++t ) {
-        th.emplace_back( [t, &body] {
+        th.emplace_back( [t, &body, &prologue, &epilogue] {
             tls_tid = t;
+            if ( prologue ) {
+                {
+                    std::unique_lock<std::mutex> lk( g_mu );
+                    g_cv_exit.wait( lk, [t] { return g_pro_turn == t; } );
+                }
+                tls_quiet = true;
+                prologue( t );
+                tls_quiet = false;
+                std::unique_lock<std::mutex> lk( g_mu );
+                ++g_pro_done;
+                g_cv_main.notify_one();
+            }
             {
                 std::unique_lock<std::mutex> lk( g_mu );
                 g_cv[t].wait( lk, [t] { return g_cur == t; } );
@@ -341,8 +379,19 @@ RunStatus run_case( int nthreads, std::function<void( int )> const& body, SchedC
             // park until the main thread lets this thread exit: thread-exit destructors (boost TSS,
             // thread_local) run unscheduled, so they must not overlap with scheduled threads or each other
             g_cv_exit.wait( lk, [t] { return g_exit_turn == t; } );
+            if ( epilogue ) {
+                lk.unlock();
+                epilogue( t );
+            }
         } );
     }
+    if ( prologue )
+        for ( int t = 0; t < nthreads; ++t ) {
+            std::unique_lock<std::mutex> lk( g_mu );
+            g_pro_turn = t;
+            g_cv_exit.notify_all();
+            g_cv_main.wait( lk, [t] { return g_pro_done == t + 1; } );
+        }
     {
         int first = decide( -1 );
         std::unique_lock<std::mutex> lk( g_mu );
@@ -406,8 +455,8 @@ std::string render_trace()
 {
     std::ostringstream os;
     for ( Rec const& r : g_trace ) {
-        if ( r.kind == K_NOTE ) {
-            os << "T " << ( r.tid == 0xffff ? -1 : int( r.tid )) << ' ' << g_notes[r.note] << '\n';
+        if ( r.kind == K_NOTE || r.kind == K_PSEUDO ) {
+            os << "T " << ( r.tid == 0xffff ? -1 : int( r.tid )) << ( r.kind == K_PSEUDO ? " A " : " " ) << g_notes[r.note] << '\n';
             continue;
         }
         os << "T " << r.tid << " A " << kind_name( r.kind );
@@ -430,6 +479,10 @@ uint64_t trace_hash()
     for ( Rec const& r : g_trace ) {
         if ( r.kind == K_NOTE ) continue;
         mix( r.tid ); mix( r.kind );
+        if ( r.kind == K_PSEUDO ) {
+            for ( char c : g_notes[r.note] ) mix( uint8_t( c ));
+            continue;
+        }
         std::string n = name_of( r.addr );
         if ( !n.empty() && n[0] != '@' )
             for ( char c : n ) mix( uint8_t( c ));
